@@ -10,7 +10,8 @@ import (
 // C04, algorithm level (check 403): histories of Node.SetByPath / Node.UnsetByPath whose every intermediate buffer is
 // compared BYTE FOR BYTE with the byte-level model (coq/model/ThriftEditBytes.v: walk, three-slice splice, field header /
 // key bytes of Path.ToRaw, in-place count patch) run on the previous buffer.
-// case 403: type, bytes, nops, (kind 1 set / 2 unset, path, sub type, sub bytes, err 0 nil / 1 error / 3 panic, exist, bytes after)*
+// case 403: type, bytes, nops, (kind 1 set / 2 unset, path, sub type, sub bytes, err 0 nil / 1 error / 3 panic, exist, bytes after,
+// flags: bit0 Value API (descriptor attached), bit1 every field step of the path is declared in the IDL)*
 func init() {
 	base := generators["C04"]
 	generators["C04"] = func(r *rng, n int) {
@@ -136,6 +137,18 @@ func genC04Bytes(r *rng, n int) {
 		}
 		buf := val.encode(nil)
 		node := generic.NewNode(thrift.STRUCT, append([]byte(nil), buf...))
+		// Value variants (descriptor attached): the same algorithm behind a descriptor guard; id-addressed here
+		typed := !wide && r.chance(35)
+		var value generic.Value
+		var desc *thrift.TypeDescriptor
+		if typed {
+			d, err := parseThrift(g.idl(root), thrift.Options{})
+			if err != nil {
+				die("generated IDL does not parse: %v", err)
+			}
+			desc = d
+			value = generic.NewValue(desc, append([]byte(nil), buf...))
+		}
 		var paths [][]Step
 		val.allPaths(nil, &paths, 80, r)
 		nops := 1 + r.intn(12)
@@ -151,6 +164,7 @@ func genC04Bytes(r *rng, n int) {
 			var p []Step
 			var subT *Ty
 			kind := 1
+			inContract := true // the next op may stay at this path (only for paths made of steps that fit the shape)
 			cls := r.intn(100)
 			switch {
 			case wide && r.chance(6): // a STRING key step on an integer-keyed map whose raw bytes equal an existing key's (finding 408)
@@ -164,6 +178,7 @@ func genC04Bytes(r *rng, n int) {
 				if r.chance(70) {
 					kind = 2
 				}
+				inContract = false
 			case cls < 30 && len(base) > 0: // replace an existing element
 				p = base
 				subT = typeAt(root, p)
@@ -198,6 +213,7 @@ func genC04Bytes(r *rng, n int) {
 				}
 				p = append(append([]Step(nil), base...), st, Step{Kind: 1 + r.intn(5), N: int64(r.intn(3)), B: []byte("k")})
 				subT = &Ty{K: thrift.I32}
+				inContract = false
 				if r.chance(40) {
 					kind = 2
 				}
@@ -212,6 +228,7 @@ func genC04Bytes(r *rng, n int) {
 					(bad.Kind >= 3 && pk == thrift.MAP)
 				p = append(append([]Step(nil), base...), bad)
 				subT = &Ty{K: thrift.I32}
+				inContract = false
 				// a step that fits the parent's kind is an insertion point for the (wrongly typed) I32: outside the API contract
 				if r.chance(40) || fits {
 					kind = 2
@@ -223,6 +240,11 @@ func genC04Bytes(r *rng, n int) {
 				p = base
 				subT = typeAt(root, p)
 				if subT == nil {
+					continue
+				}
+				// only while the element is still there: on an absent element this would be an INSERTION of a node whose type
+				// the container does not declare (outside the API contract; the value would stop conforming to its descriptor)
+				if node.GetByPath(toPath(p)...).IsError() || (typed && value.GetByPath(toPath(p)...).IsError()) {
 					continue
 				}
 				switch subT.K {
@@ -251,9 +273,14 @@ func genC04Bytes(r *rng, n int) {
 			var exist bool
 			var e error
 			ok, _ := noPanic(func() {
-				if kind == 1 {
+				switch {
+				case typed && kind == 1:
+					exist, e = value.SetByPath(generic.Value{Node: generic.NewNode(subT.K, append([]byte(nil), sb...)), Desc: descFor(desc, p)}, gp...)
+				case typed:
+					e = value.UnsetByPath(gp...)
+				case kind == 1:
 					exist, e = node.SetByPath(generic.NewNode(subT.K, append([]byte(nil), sb...)), gp...)
-				} else {
+				default:
 					e = node.UnsetByPath(gp...)
 				}
 			})
@@ -263,11 +290,19 @@ func genC04Bytes(r *rng, n int) {
 			} else if e != nil {
 				ei = 1
 			}
+			res := node.Raw()
+			flags := declBit(root, p)
+			if typed {
+				res = value.Raw()
+				flags |= 1
+			}
 			ops = append(ops, fi(kind))
 			ops = append(ops, pathFields(p)...)
-			ops = append(ops, fi(int(subT.K)), fx(sb), fi(ei), fb(exist), fx(node.Raw()))
+			ops = append(ops, fi(int(subT.K)), fx(sb), fi(ei), fb(exist), fx(res), fi(flags))
 			done++
-			last = p
+			if inContract {
+				last = p
+			}
 			if !ok {
 				break
 			}
